@@ -691,3 +691,152 @@ func TestVerif_C17_FreshShared(t *testing.T) {
 		}
 	})
 }
+
+// ---- a crowd of calls in flight, then overlapping pairs -----------------------------------------------------------------------
+//
+// Phase 1: N signing calls are in flight AT ONCE (each parked inside its own source's first Read), N around the sizes fixed pools
+// tend to have (64, 128, 256 and their neighbours); they are released in a drawn order. Phase 2: a few hundred overlapping pairs —
+// signer A parks in the middle of its nonce, signer B signs completely meanwhile, A resumes. Whatever the library recycles between
+// calls (buffers, slots, hash states), no two calls in flight may ever hold the same one; every result equals the reference's.
+
+func TestVerif_C17_ParkedCrowd(t *testing.T) {
+	rec := stats.Get("C17", "parked-crowd")
+	rec.Rule("rapid draws a crowd size N from {0, 3, 63..65, 127..130, 200, 257, 300}, a release order (arrival order, reverse, last-arrived first then the rest) and keys; N SignHashed / Sign calls are parked inside their sources at once (before the first byte or with 7 or 31 bytes of the nonce delivered); one is released, four complete calls come and go, the rest are released; all results are compared with the references; then 300 overlapping pairs (A parks after 7 bytes of its nonce, B signs meanwhile, A resumes) are run and compared. Non-trivial: every plan; distinct by (N, order, keys).")
+	t.Cleanup(stats.FlushAll)
+	rapid.Check(t, func(t *rapid.T) {
+		r := gen.Rand(t, "content")
+		N := []int{0, 3, 63, 64, 65, 127, 128, 129, 130, 200, 257, 300}[gen.Uniform(t, "crowd", 0, 11)]
+		order := gen.Pick(t, "release-order", "arrival", "reverse", "last-first")
+		d := new(big.Int).SetBytes(gen.RandBytes(r, 40))
+		d.Mod(d, sm2gen.NM2).Add(d, big.NewInt(1))
+		d32 := gen.Pad32(d)
+		px, py, _ := sm2gen.Pub(d)
+		id, msg := gen.RandBytes(r, 12), gen.RandBytes(r, 40)
+		za, _ := sm2ref.ZA(id, px, py)
+		eMsg := sm2ref.E(za, msg)
+		rec.Case(stats.HashS(fmt.Sprint(N), order)^stats.Hash(d32), true, fmt.Sprintf("crowd:%d", N), "order:"+order)
+		type job struct {
+			src    *c17ParkReader
+			stream []byte
+			e      []byte
+			viaMsg bool
+			done   chan string
+		}
+		mk := func(parkAt int, viaMsg bool) *job {
+			st := gen.RandBytes(r, 96)
+			st[0] &= 0x7f
+			j := &job{stream: st, e: gen.RandBytes(r, 32), viaMsg: viaMsg, done: make(chan string, 1)}
+			j.src = &c17ParkReader{data: st, parkAt: parkAt, parked: make(chan struct{}), release: make(chan struct{})}
+			return j
+		}
+		run := func(j *job, rd io.Reader) {
+			go func() {
+				defer func() {
+					if p := recover(); p != nil {
+						j.done <- fmt.Sprintf("PANIC: %v", p)
+					}
+				}()
+				var rr, ss []byte
+				var err error
+				if j.viaMsg {
+					rr, ss, err = sm2.Sign(id, px, py, rd, d32, msg)
+				} else {
+					rr, ss, err = sm2.SignHashed(rd, d32, j.e)
+				}
+				j.done <- fmt.Sprintf("%x|%x|%v", rr, ss, err)
+			}()
+		}
+		want := func(j *job) string {
+			e := j.e
+			if j.viaMsg {
+				e = eMsg
+			}
+			rr, ss, _, _, err := sm2ref.Sign(d, e, j.stream)
+			if err != nil {
+				return "?"
+			}
+			return fmt.Sprintf("%x|%x|<nil>", gen.Pad32(rr), gen.Pad32(ss))
+		}
+		collect := func(j *job, what string) bool {
+			select {
+			case got := <-j.done:
+				if w := want(j); w != "?" && got != w {
+					vt.Fail(t, rec, "C17:parked-crowd:result-differs", "%s (crowd of %d, released in %s order) returned\n %s\nwant\n %s", what, N, order, got, w)
+					return false
+				}
+				return true
+			case <-time.After(60 * time.Second):
+				rec.Skipped(what + ": no result within 60 s (machine too busy to judge)")
+				return false
+			}
+		}
+		// phase 1: the crowd
+		crowd := make([]*job, N)
+		for i := range crowd {
+			crowd[i] = mk([]int{0, 7, 7, 31}[i%4], i%3 == 0) // parked before the first byte, or with part of the nonce already delivered
+			run(crowd[i], crowd[i].src)
+			select {
+			case <-crowd[i].src.parked:
+			case <-time.After(30 * time.Second):
+				rec.Skipped("a crowd member did not reach its source within 30 s")
+				for _, c := range crowd[:i+1] {
+					close(c.src.release)
+				}
+				return
+			}
+		}
+		idx := make([]int, N)
+		for i := range idx {
+			switch order {
+			case "reverse":
+				idx[i] = N - 1 - i
+			case "last-first":
+				idx[i] = (i + N - 1) % N
+			default:
+				idx[i] = i
+			}
+		}
+		ok := true
+		for n, i := range idx {
+			close(crowd[i].src.release)
+			if !collect(crowd[i], fmt.Sprintf("crowd member %d", i)) {
+				ok = false
+			}
+			if n == 0 && ok {
+				// one member has left while the others are still in flight: a few complete calls come and go now (they take
+				// whatever the member that left gave back, and give it back in turn)
+				for k := 0; k < 4; k++ {
+					b := mk(1<<30, k%2 == 0)
+					run(b, bytes.NewReader(b.stream))
+					if !collect(b, fmt.Sprintf("interloper %d (complete call while %d crowd members are parked)", k, N-1)) {
+						ok = false
+					}
+				}
+			}
+		}
+		if !ok {
+			return
+		}
+		// phase 2: overlapping pairs
+		for p := 0; p < 300; p++ {
+			a, b := mk(7, p%4 == 0), mk(1<<30, p%5 == 0)
+			run(a, a.src)
+			select {
+			case <-a.src.parked:
+			case got := <-a.done:
+				a.done <- got
+			case <-time.After(30 * time.Second):
+				close(a.src.release)
+				rec.Skipped("signer A did not reach its source within 30 s")
+				return
+			}
+			run(b, bytes.NewReader(b.stream))
+			okB := collect(b, fmt.Sprintf("pair %d: signer B (run while A was parked in the middle of its nonce)", p))
+			close(a.src.release)
+			okA := collect(a, fmt.Sprintf("pair %d: signer A (parked after 7 bytes of its nonce while B signed)", p))
+			if !okA || !okB {
+				return
+			}
+		}
+	})
+}
